@@ -10,7 +10,8 @@ WARM_OK = ("greedy", "ucb", "softmax", "thompson", "popularity", "lingreedy", "l
 
 LABEL_SETS = {
     "int": [3, 1, 7, 10, 4, 22, 5, 8],
-    "str": ["a", "b", "c", "dd", "e", "f", "g", "h"],
+    # labels of different lengths, some a proper prefix of another (fixed-width string arrays truncate silently)
+    "str": ["a", "ab", "c", "dd", "d", "abc", "g", "h"],
     "float": [0.5, 2.0, 1.25, 7.0, 3.5, 9.0, 4.75, 6.0],
 }
 
@@ -105,6 +106,13 @@ class Gen:
                     "seed": rng_.randint(0, 10 ** 6), "binz": self.binz, "n_jobs": 1}
         if profile.get("fix_lp"):
             self.cfg["lp"].update(profile["fix_lp"].get(self.lpk, {}))
+        if npk is None and profile.get("free_n_jobs", True):
+            # without a neighbourhood policy n_jobs only distributes the per-arm training tasks (no draws are taken
+            # there), so every check can vary it; derived from the bandit's seed to keep the scenario stream stable
+            nj = random.Random(self.cfg["seed"]).choice([1, 1, 1, 1, 1, 1, 1, 1, 2, 3])
+            if nj != 1:
+                self.cfg["n_jobs"] = nj
+                self.cfg["backend"] = "threading"
         self.stored = []
         self.fitted = False
         self.ops = []
